@@ -47,8 +47,10 @@ CLAIMS = {
                 'reference interpreter with the same limit plus metamorphic checks (every L in 1..N+2, L = 0, log prefix, count = L+1) are the direct oracle.',
         'note': 'trusted: Coq kernel/vm_compute; transliteration of runtime.py validated by the correspondence; the library premises are hypotheses of '
                 'the theorems (proved for Model/LibAll.v libfull = LibCore + arraySort with callbacks + lifted LibSeq; exercised on the real library by the oracle: '
-                'includes, data helpers). Partial: termination needs a rank premise on the library (a library function calls back only script functions or '
-                'lower-ranked library functions) which excludes arraySort(a, arraySort)-style statement-free recursion, cut in CPython by RecursionError (out of scope). No axioms.',
+                'includes, data helpers). Termination: proved for the combined library libfull2 itself with NO library premise from every well-formed initial world (closure-free worlds are '
+                'well-formed; the invariant is preserved by the interpreter and by every library function); the earlier rank premise is refuted for that library '
+                '(arraySort handed arraySort) and replaced by a measured version. The model has no recursion limit (CPython cuts chains of ~1000 closures by '
+                'RecursionError, contained as null). No axioms.',
         'ref': 'DESIGN.md section 5 C09',
     },
     'C03': {
